@@ -445,3 +445,26 @@ def generic_replay(c, path):
         c.cleanup()
         return 0
     raise MachineryError("replay kind %r needs the engine's own replay function" % r.get("kind"))
+
+
+def run_harness_sharded(binary, args, shards, *, timeout=3600, env=None):
+    """Run `shards` processes of a harness command with -shard i -of n appended and merge
+    their reports (engines whose real code has process-global state replay sequentially
+    inside one process, so parallelism comes from processes)."""
+    import concurrent.futures
+    def one(i):
+        return run_harness(binary, list(args) + ["-shard", i, "-of", shards], timeout=timeout, env=env)
+    with concurrent.futures.ThreadPoolExecutor(max_workers=shards) as ex:
+        reps = list(ex.map(one, range(shards)))
+    out = dict(reps[0])
+    for k in ("behaviours", "steps", "nontrivial", "distinct", "n_mismatches"):
+        out[k] = sum(r.get(k, 0) for r in reps)
+    out["mismatches"] = [m for r in reps for m in r.get("mismatches", [])][:5]
+    out["samples"] = [s for r in reps for s in r.get("samples", [])][:3]
+    oc = {}
+    for r in reps:
+        for k, v in (r.get("op_counts") or {}).items():
+            oc[k] = oc.get(k, 0) + v
+    out["op_counts"] = oc
+    out["_wall"] = max(r["_wall"] for r in reps)
+    return out
